@@ -77,6 +77,12 @@ def main():
     t0 = time.time()
     mod = importlib.import_module(modname)
     cells = [c for c in mod.CELLS if tier == 'thorough' or c.tier == 'quick']
+    stride = int(getattr(mod, 'THOROUGH_STRIDE', 1))
+    if tier == 'thorough' and stride > 1 and not a.cells:
+        # sized by total wall time: every quick cell plus every stride-th of the thorough-only cells (deterministic; the cells actually run are listed in evidence)
+        extra = [c for c in cells if c.tier != 'quick']
+        keep = set(id(c) for c in extra[::stride])
+        cells = [c for c in cells if c.tier == 'quick' or id(c) in keep]
     if a.cells:
         cells = [c for c in cells if re.search(a.cells, c.name)]
     scale = float(os.environ.get('VERIF_BUDGET_SCALE', '1.0')) * (getattr(mod, 'THOROUGH_SCALE', 3.0) if tier == 'thorough' else 1.0)
